@@ -123,3 +123,16 @@ package transport
 //@ func (*connipc).Send
 //@   ensures isnil(result) ==> called("WriteTo")
 //@   ensures !called("Write") && !called("ReadFrom")
+
+// ---- round 12: address helpers ----
+//@ func StripScheme
+//@   ensures isnil(result1) ==> addr == pcall(t, "Scheme") + "://" + result0
+//@   ensures !isnil(result1) ==> result1 == mangos.ErrBadTran && result0 == addr
+//@   ensures isnil(result1) <==> hasprefix(addr, pcall(t, "Scheme") + "://")
+//@
+//@ func ResolveTCPAddr
+//@   ghost a0 = result0 at call:ResolveTCPAddr#1
+//@   ghost e0 = result1 at call:ResolveTCPAddr#1
+//@   before call:TrimPrefix#1 assert arg0 == addr && arg1 == "*"
+//@   before call:ResolveTCPAddr#1 assert arg0 == "tcp" && (hasprefix(old(addr), "*") ==> "*" + arg1 == old(addr)) && (!hasprefix(old(addr), "*") ==> arg1 == old(addr))
+//@   ensures result0 == a0 && result1 == e0
